@@ -267,4 +267,540 @@ theorem K_str (st : PState) (TS : List Tok) (lt slt : Option Tok) (s0 : List Cha
               · simp at hg; subst hg; exact hc')
         simpa using this
 
+/-! ### fragment sequences with string literals -/
+
+inductive SeqEl
+  | af (a : AFrag)
+  | strF (s : List Char) (paren : Bool)
+
+def SeqEl.frag : SeqEl → Frag
+  | .af a => a.frag
+  | .strF s p => .str s p
+
+/-- the tokens the parser expects: a string literal is one token -/
+def SeqEl.toks : SeqEl → List Tok
+  | .af a => a.toks
+  | .strF s _ => [.str (escQ s)]
+
+def SeqEl.safe (slt : Option Tok) : SeqEl → Prop
+  | .af a => bodySafe (a.prev slt) a.body
+  | .strF _ p => p = true → ∀ t0, slt = some t0 → adjOK t0 .lp = true
+
+def SeqEl.flow (slt : Option Tok) : SeqEl → Option Tok
+  | .af a => a.flow slt
+  | .strF s _ => some (.str (escQ s))
+
+def SafeSeqS : Option Tok → List SeqEl → Prop
+  | _, [] => True
+  | slt, x :: xs => x.safe slt ∧ SafeSeqS (x.flow slt) xs
+
+def flowSeqS : Option Tok → List SeqEl → Option Tok
+  | slt, [] => slt
+  | slt, x :: xs => flowSeqS (x.flow slt) xs
+
+theorem safeSeqS_append (as bs : List SeqEl) : ∀ slt, SafeSeqS slt (as ++ bs) ↔ SafeSeqS slt as ∧ SafeSeqS (flowSeqS slt as) bs := by
+  induction as with
+  | nil => intro slt; simp [SafeSeqS, flowSeqS]
+  | cons a as ih => intro slt; simp [SafeSeqS, flowSeqS, ih, and_assoc]
+
+theorem flowSeqS_append (as bs : List SeqEl) : ∀ slt, flowSeqS slt (as ++ bs) = flowSeqS (flowSeqS slt as) bs := by
+  induction as with
+  | nil => intro slt; rfl
+  | cons a as ih => intro slt; simp [flowSeqS, ih]
+
+theorem safeSeqS_map (as : List AFrag) : ∀ slt, SafeSeqS slt (as.map SeqEl.af) ↔ SafeSeq slt as := by
+  induction as with
+  | nil => intro slt; simp [SafeSeqS, SafeSeq]
+  | cons a as ih => intro slt; simp [SafeSeqS, SafeSeq, SeqEl.safe, SeqEl.flow, ih]
+
+theorem flowSeqS_map (as : List AFrag) : ∀ slt, flowSeqS slt (as.map SeqEl.af) = flowSeq slt as := by
+  induction as with
+  | nil => intro slt; rfl
+  | cons a as ih => intro slt; simp [flowSeqS, flowSeq, SeqEl.flow, ih]
+
+/-- the tokens read (`ts`) against the tokens the parser expects: equal, except that a string literal may have been read as a
+split rendering of it -/
+inductive Joined : List Tok → List Tok → Prop
+  | nil : Joined [] []
+  | tok (t : Tok) {a b : List Tok} : Joined a b → Joined (t :: a) (t :: b)
+  | str {x : List Tok} {b : List Char} {a c : List Tok} : StrSplit b x → Joined a c → Joined (x ++ a) (.str b :: c)
+
+theorem Joined.refl : ∀ ts : List Tok, Joined ts ts
+  | [] => .nil
+  | t :: ts => .tok t (Joined.refl ts)
+
+theorem Joined.append {a b c d : List Tok} (h1 : Joined a b) (h2 : Joined c d) : Joined (a ++ c) (b ++ d) := by
+  induction h1 with
+  | nil => simpa using h2
+  | tok t _ ih => exact .tok t ih
+  | str hs _ ih => rw [List.append_assoc]; exact .str hs ih
+
+/-- Part I with string literals -/
+theorem K_runS (xs : List SeqEl) : ∀ (st : PState) (TS : List Tok) (lt slt : Option Tok), K st TS lt → (lt = none ∨ lt = slt) →
+    SafeSeqS slt xs →
+    ∃ ts lt', K (run st (xs.map SeqEl.frag)) (TS ++ ts) lt' ∧ (lt' = none ∨ lt' = flowSeqS slt xs) ∧ Joined ts (xs.flatMap SeqEl.toks) := by
+  induction xs with
+  | nil => intro st TS lt slt hK hr _; exact ⟨[], lt, by simpa [run] using hK, hr, .nil⟩
+  | cons x xs ih =>
+    intro st TS lt slt hK hr hs
+    cases x with
+    | af a =>
+      obtain ⟨lt1, hK1, hr1⟩ := K_step st TS lt slt a hK hr hs.1
+      obtain ⟨ts2, lt2, hK2, hr2, hj⟩ := ih (step st a.frag) (TS ++ a.toks) lt1 (a.flow slt) hK1 hr1 hs.2
+      refine ⟨a.toks ++ ts2, lt2, ?_, hr2, ?_⟩
+      · simpa [run, SeqEl.frag, List.append_assoc] using hK2
+      · simpa [SeqEl.toks] using (Joined.refl a.toks).append hj
+    | strF s p =>
+      obtain ⟨ts1, lt1, hK1, hr1, hsp⟩ := K_str st TS lt slt s p hK hr hs.1
+      obtain ⟨ts2, lt2, hK2, hr2, hj⟩ := ih (breakLongStr st s p) (TS ++ ts1) lt1 (some (.str (escQ s))) hK1 hr1 hs.2
+      refine ⟨ts1 ++ ts2, lt2, ?_, hr2, ?_⟩
+      · simpa [run, SeqEl.frag, step, List.append_assoc] using hK2
+      · have := Joined.str (a := ts2) (c := xs.flatMap SeqEl.toks) hsp hj
+        simpa [SeqEl.toks] using this
+
+def sW (body : List (Tok × Nat)) (lead : Nat := 0) : SeqEl := .af (aW body lead)
+def sR (body : List (Tok × Nat)) (lead : Nat := 0) : SeqEl := .af (aR body lead)
+theorem frag_sW (b : List (Tok × Nat)) (l : Nat) : (sW b l).frag = (aW b l).frag := rfl
+theorem frag_sR (b : List (Tok × Nat)) (l : Nat) : (sR b l).frag = (aR b l).frag := rfl
+theorem toks_sW (b : List (Tok × Nat)) (l : Nat) : (sW b l).toks = b.map (·.1) := rfl
+theorem toks_sR (b : List (Tok × Nat)) (l : Nat) : (sR b l).toks = b.map (·.1) := rfl
+
+mutual
+/-- `exprFrags Shared.clean` annotated, string literals as `breakLongStr` fragments -/
+def annotS : Expr → Bool → Option BinOp → List SeqEl
+  | .lit (.str s), paren, prev => [.strF s (paren && prev != some .plus && ExpPrec.splitLiteralParen)]
+  | .lit l, _, _ => [sW ((litToks l).map fun t => (t, 0))]
+  | .ident s, _, _ => [sW [(.id s, 0)]]
+  | .bin o a b, paren, prev =>
+    (if binParen o paren prev then [sW [(.lp, 1)]] else [])
+      ++ annotS a true (some o) ++ [sR [] 1, sW [(.op o, 0)], sW [] 1] ++ annotS b true (some o)
+      ++ (if binParen o paren prev then [sR [(.rp, 0)] 1] else [])
+  | .neg a, paren, _ =>
+    (if paren then [sW [(.lp, 1)]] else []) ++ [sW [(.op .minus, 0)]] ++ annotS a true none ++ (if paren then [sR [(.rp, 0)] 1] else [])
+  | .not a, paren, _ =>
+    (if paren then [sW [(.lp, 1)]] else []) ++ [sW [(.not, 1)]] ++ annotS a true none ++ (if paren then [sR [(.rp, 0)] 1] else [])
+  | .dot a f, _, _ => annotS a true none ++ [sW [(.dot, 0)], sW [(.id f, 0)]]
+  | .group a f, _, _ => annotS a true none ++ [sW [(.bslash, 0)], sW [(.id f, 0)]]
+  | .index a i, _, _ => annotS a true none ++ [sW [(.lb, 0)]] ++ annotS i (indexParen i) none ++ [sR [(.rb, 0)]]
+  | .range a i j, _, _ =>
+    annotS a true none ++ [sW [(.lb, 0)]] ++ annotS i (indexParen i) none ++ [sW [(.colon, 1)] 1] ++ annotS j (indexParen j) none ++ [sR [(.rb, 0)]]
+  | .query v s c, _, _ =>
+    [sW [(.kw "QUERY", 1), (.lp, 1), (.id v, 1), (.allIn, 1)]] ++ annotS s true none ++ [sW [(.bar, 1)] 1] ++ annotS c true none ++ [sR [(.rp, 0)] 1]
+  | .call f args, _, _ => [sW [(.id f, 0), (.lp, 1)]] ++ argAS args true ++ [sR [(.rp, 0)] 1]
+  | .aggr items, _, _ => [sW [(.lb, 0)]] ++ itemAS items true ++ [sR [(.rb, 0)]]
+  | .nil, _, _ => []
+  | .cons _ _, _, _ => []
+  | .rep _ _ _, _, _ => []
+def argAS : Expr → Bool → List SeqEl
+  | .cons e t, first => (if first then [] else [sR [(.comma, 1)]]) ++ annotS e false none ++ argAS t false
+  | _, _ => []
+def itemAS : Expr → Bool → List SeqEl
+  | .cons e t, first => (if first then [] else [sR [(.comma, 1)]]) ++ annotS e false none ++ itemAS t false
+  | .rep e c t, first =>
+    (if first then [] else [sR [(.comma, 1)]]) ++ annotS e false none ++ [sR [(.colon, 1)] 1]
+      ++ (if ExpPrec.repeatOverwritesCountType then [sW [(countTok c, 0)]] else annotS c false none)
+      ++ itemAS t false
+  | _, _ => []
+end
+
+/-- as `LitLex`, simple string literals allowed -/
+def LitLexS : Lit → Prop
+  | .str _ => True
+  | l => LitLex l
+
+mutual
+/-- as `lexWF`, simple string literals allowed -/
+def lexWFS : Expr → Prop
+  | .lit l => LitLexS l
+  | .ident s => TokWF (.id s)
+  | .bin _ a b => lexWFS a ∧ lexWFS b
+  | .neg a | .not a => lexWFS a
+  | .dot a f => lexWFS a ∧ TokWF (.id f) ∧ ∀ n, a ≠ .lit (.int n)
+  | .group a f => lexWFS a ∧ TokWF (.id f)
+  | .index a i => lexWFS a ∧ lexWFS i
+  | .range a i j => lexWFS a ∧ lexWFS i ∧ lexWFS j
+  | .query v s c => TokWF (.id v) ∧ lexWFS s ∧ lexWFS c
+  | .call f as => TokWF (.id f) ∧ lexArgsS as
+  | .aggr is => lexItemsS is
+  | .nil | .cons _ _ | .rep _ _ _ => False
+def lexArgsS : Expr → Prop
+  | .nil => True
+  | .cons e t => lexWFS e ∧ lexArgsS t
+  | _ => False
+def lexItemsS : Expr → Prop
+  | .nil => True
+  | .cons e t => lexWFS e ∧ lexItemsS t
+  | .rep e c t => lexWFS e ∧ lexWFS c ∧ lexItemsS t
+  | _ => False
+end
+
+/-- the annotation is the printer's fragment list and carries the printer's tokens -/
+theorem annotS_eq (e : Expr) :
+    (∀ p q, lexWFS e → (annotS e p q).map SeqEl.frag = exprFrags Shared.clean e p q
+        ∧ (annotS e p q).flatMap SeqEl.toks = toks Shared.clean e p q)
+    ∧ (∀ fst, lexArgsS e → (argAS e fst).map SeqEl.frag = argFrags Shared.clean e fst
+        ∧ (argAS e fst).flatMap SeqEl.toks = argToks Shared.clean e fst)
+    ∧ (∀ fst, lexItemsS e → (itemAS e fst).map SeqEl.frag = itemFrags Shared.clean e fst
+        ∧ (itemAS e fst).flatMap SeqEl.toks = itemToks Shared.clean e fst) := by
+  have hrep : ExpPrec.repeatOverwritesCountType = false := rfl
+  induction e with
+  | lit l =>
+    refine ⟨?_, fun _ h => absurd h (by simp [lexArgsS]), fun _ h => absurd h (by simp [lexItemsS])⟩
+    intro p q h
+    simp only [lexWFS] at h
+    by_cases hs : ∃ s, l = .str s
+    · obtain ⟨s, rfl⟩ := hs
+      simp [annotS, exprFrags, toks, litFrag, litToks, SeqEl.frag, SeqEl.toks]
+    · have hl : LitLex l := by cases l <;> first | exact h | exact absurd ⟨_, rfl⟩ hs
+      have ha : annotS (.lit l) p q = (annot (.lit l) p q).map SeqEl.af := by
+        cases l <;> first | rfl | exact absurd ⟨_, rfl⟩ hs
+      obtain ⟨e1, e2⟩ := (annot_eq (.lit l)).1 p q (by simpa [lexWF] using hl)
+      rw [ha]
+      refine ⟨?_, ?_⟩
+      · rw [List.map_map, ← e1]; rfl
+      · rw [← e2, List.flatMap_map]; rfl
+  | ident s =>
+    refine ⟨?_, fun _ h => absurd h (by simp [lexArgsS]), fun _ h => absurd h (by simp [lexItemsS])⟩
+    intro p q _
+    simp [annotS, exprFrags, toks, frag_id, toks_sW, frag_sW, toks_aW]
+  | bin o a b iha ihb =>
+    refine ⟨?_, fun _ h => absurd h (by simp [lexArgsS]), fun _ h => absurd h (by simp [lexItemsS])⟩
+    intro p q h
+    simp only [lexWFS] at h
+    obtain ⟨a1, a2⟩ := iha.1 true (some o) h.1
+    obtain ⟨b1, b2⟩ := ihb.1 true (some o) h.2
+    by_cases hp : binParen o p q = true <;>
+      simp [annotS, exprFrags, toks, hp, a1, a2, b1, b2, padded_all, frag_lp, frag_rp, frag_sp_r, frag_sp_w, frag_op, toks_sW, toks_sR, frag_sW, frag_sR, toks_aW, toks_sR, frag_sR, toks_aR]
+  | neg a iha =>
+    refine ⟨?_, fun _ h => absurd h (by simp [lexArgsS]), fun _ h => absurd h (by simp [lexItemsS])⟩
+    intro p q h
+    simp only [lexWFS] at h
+    obtain ⟨a1, a2⟩ := iha.1 true none h
+    have hm : BinOp.minus.text = "-" := by decide
+    cases p <;> simp [annotS, exprFrags, toks, a1, a2, frag_lp, frag_rp, frag_minus, toks_sW, toks_sR, frag_sW, frag_sR, toks_aW, toks_sR, frag_sR, toks_aR]
+  | not a iha =>
+    refine ⟨?_, fun _ h => absurd h (by simp [lexArgsS]), fun _ h => absurd h (by simp [lexItemsS])⟩
+    intro p q h
+    simp only [lexWFS] at h
+    obtain ⟨a1, a2⟩ := iha.1 true none h
+    cases p <;> simp [annotS, exprFrags, toks, a1, a2, frag_lp, frag_rp, frag_not, toks_sW, toks_sR, frag_sW, frag_sR, toks_aW, toks_sR, frag_sR, toks_aR]
+  | dot a f iha =>
+    refine ⟨?_, fun _ h => absurd h (by simp [lexArgsS]), fun _ h => absurd h (by simp [lexItemsS])⟩
+    intro p q h
+    simp only [lexWFS] at h
+    obtain ⟨a1, a2⟩ := iha.1 true none h.1
+    simp [annotS, exprFrags, toks, a1, a2, frag_dot, frag_id, toks_sW, frag_sW, toks_aW]
+  | group a f iha =>
+    refine ⟨?_, fun _ h => absurd h (by simp [lexArgsS]), fun _ h => absurd h (by simp [lexItemsS])⟩
+    intro p q h
+    simp only [lexWFS] at h
+    obtain ⟨a1, a2⟩ := iha.1 true none h.1
+    simp [annotS, exprFrags, toks, a1, a2, frag_bslash, frag_id, toks_sW, frag_sW, toks_aW]
+  | index a i iha ihi =>
+    refine ⟨?_, fun _ h => absurd h (by simp [lexArgsS]), fun _ h => absurd h (by simp [lexItemsS])⟩
+    intro p q h
+    simp only [lexWFS] at h
+    obtain ⟨a1, a2⟩ := iha.1 true none h.1
+    obtain ⟨i1, i2⟩ := ihi.1 (indexParen i) none h.2
+    simp [annotS, exprFrags, toks, a1, a2, i1, i2, frag_lb, frag_rb, toks_sW, toks_sR, frag_sW, frag_sR, toks_aW, toks_sR, frag_sR, toks_aR]
+  | range a i j iha ihi ihj =>
+    refine ⟨?_, fun _ h => absurd h (by simp [lexArgsS]), fun _ h => absurd h (by simp [lexItemsS])⟩
+    intro p q h
+    simp only [lexWFS] at h
+    obtain ⟨a1, a2⟩ := iha.1 true none h.1
+    obtain ⟨i1, i2⟩ := ihi.1 (indexParen i) none h.2.1
+    obtain ⟨j1, j2⟩ := ihj.1 (indexParen j) none h.2.2
+    simp [annotS, exprFrags, toks, a1, a2, i1, i2, j1, j2, frag_lb, frag_rb, frag_colon_w, toks_sW, toks_sR, frag_sW, frag_sR, toks_aW, toks_sR, frag_sR, toks_aR]
+  | query v s c ihs ihc =>
+    refine ⟨?_, fun _ h => absurd h (by simp [lexArgsS]), fun _ h => absurd h (by simp [lexItemsS])⟩
+    intro p q h
+    simp only [lexWFS] at h
+    obtain ⟨s1, s2⟩ := ihs.1 true none h.2.1
+    obtain ⟨c1, c2⟩ := ihc.1 true none h.2.2
+    simp [annotS, exprFrags, toks, s1, s2, c1, c2, frag_query, frag_bar, frag_rp, toks_sW, toks_sR, frag_sW, frag_sR, toks_aW, toks_sR, frag_sR, toks_aR]
+  | call f args ih =>
+    refine ⟨?_, fun _ h => absurd h (by simp [lexArgsS]), fun _ h => absurd h (by simp [lexItemsS])⟩
+    intro p q h
+    simp only [lexWFS] at h
+    obtain ⟨s1, s2⟩ := ih.2.1 true h.2
+    simp [annotS, exprFrags, toks, s1, s2, frag_call, frag_rp, toks_sW, toks_sR, frag_sW, frag_sR, toks_aW, toks_sR, frag_sR, toks_aR]
+  | aggr items ih =>
+    refine ⟨?_, fun _ h => absurd h (by simp [lexArgsS]), fun _ h => absurd h (by simp [lexItemsS])⟩
+    intro p q h
+    simp only [lexWFS] at h
+    obtain ⟨s1, s2⟩ := ih.2.2 true h
+    simp [annotS, exprFrags, toks, s1, s2, frag_lb, frag_rb, toks_sW, toks_sR, frag_sW, frag_sR, toks_aW, toks_sR, frag_sR, toks_aR]
+  | nil =>
+    refine ⟨fun _ _ h => absurd h (by simp [lexWFS]), ?_, ?_⟩
+    · intro fst _; simp [argAS, argFrags, argToks]
+    · intro fst _; simp [itemAS, itemFrags, itemToks]
+  | cons e t ihe iht =>
+    refine ⟨fun _ _ h => absurd h (by simp [lexWFS]), ?_, ?_⟩
+    · intro fst h
+      simp only [lexArgsS] at h
+      obtain ⟨e1, e2⟩ := ihe.1 false none h.1
+      obtain ⟨t1, t2⟩ := iht.2.1 false h.2
+      cases fst <;> simp [argAS, argFrags, argToks, e1, e2, t1, t2, frag_comma, toks_sR, frag_sR, toks_aR]
+    · intro fst h
+      simp only [lexItemsS] at h
+      obtain ⟨e1, e2⟩ := ihe.1 false none h.1
+      obtain ⟨t1, t2⟩ := iht.2.2 false h.2
+      cases fst <;> simp [itemAS, itemFrags, itemToks, e1, e2, t1, t2, frag_comma, toks_sR, frag_sR, toks_aR, sharedRep_clean]
+  | rep e c t ihe ihc iht =>
+    refine ⟨fun _ _ h => absurd h (by simp [lexWFS]), fun _ h => absurd h (by simp [lexArgsS]), ?_⟩
+    intro fst h
+    simp only [lexItemsS] at h
+    obtain ⟨e1, e2⟩ := ihe.1 false none h.1
+    obtain ⟨c1, c2⟩ := ihc.1 false none h.2.1
+    obtain ⟨t1, t2⟩ := iht.2.2 false h.2.2
+    cases fst <;> simp [itemAS, itemFrags, itemToks, e1, e2, c1, c2, t1, t2, frag_comma, frag_colon_r, toks_sR, frag_sR, toks_aR, sharedRep_clean, hrep]
+
+
+theorem safe_allS (e : Expr) :
+    (∀ p q slt, lexWFS e → Pre slt p → SafeSeqS slt (annotS e p q) ∧ Post e p q (flowSeqS slt (annotS e p q)))
+    ∧ (∀ fst slt, lexArgsS e → (fst = true → slt = none) → (fst = false → EndO slt) → SafeSeqS slt (argAS e fst))
+    ∧ (∀ fst slt, lexItemsS e → (fst = true → slt = some .lb) → (fst = false → EndO slt) →
+        SafeSeqS slt (itemAS e fst) ∧ EndO (flowSeqS slt (itemAS e fst))) := by
+  have hrep : ExpPrec.repeatOverwritesCountType = false := rfl
+  have lpm : ∀ r, sp .lp ≠ '-' :: r := no_minus_of _ rfl
+  have lbm : ∀ r, sp .lb ≠ '-' :: r := no_minus_of _ rfl
+  induction e with
+  | lit l =>
+    refine ⟨?_, fun _ _ h => absurd h (by simp [lexArgsS]), fun _ _ h => absurd h (by simp [lexItemsS])⟩
+    intro p q slt h hpre
+    simp only [lexWFS] at h
+    by_cases hs : ∃ s, l = .str s
+    · obtain ⟨s, rfl⟩ := hs
+      simp only [annotS, SafeSeqS, flowSeqS, SeqEl.safe, SeqEl.flow, and_true]
+      refine ⟨?_, post_some (.str (escQ s)) rfl (fun _ n hn => by cases hn)⟩
+      intro _ t0 h0
+      exact pre_adj hpre .lp (fun _ => no_minus_of _ rfl) t0 h0
+    · have hl : LitLex l := by cases l <;> first | exact h | exact absurd ⟨_, rfl⟩ hs
+      have := safe_lit l hl p q slt hpre
+      have ha : annotS (.lit l) p q = (annot (.lit l) p q).map SeqEl.af := by
+        cases l <;> first | rfl | exact absurd ⟨_, rfl⟩ hs
+      rw [ha, safeSeqS_map, flowSeqS_map]
+      exact this
+  | ident s =>
+    refine ⟨?_, fun _ _ h => absurd h (by simp [lexArgsS]), fun _ _ h => absurd h (by simp [lexItemsS])⟩
+    intro p q slt h hpre
+    simp only [lexWFS] at h
+    simp only [annotS, SafeSeqS, flowSeqS, SeqEl.safe, SeqEl.flow, sW, sR, AFrag.prev, AFrag.flow, aW, bodySafe, endAfter, nxt, if_true, and_true]
+    exact ⟨⟨h, pre_adj hpre _ (fun _ => id_no_minus s h)⟩, post_some (.id s) rfl (fun _ n hn => by cases hn)⟩
+  | bin o a b iha ihb =>
+    refine ⟨?_, fun _ _ h => absurd h (by simp [lexArgsS]), fun _ _ h => absurd h (by simp [lexItemsS])⟩
+    intro p q slt h hpre
+    simp only [lexWFS] at h
+    obtain ⟨b1, b2⟩ := ihb.1 true (some o) none h.2 (Or.inl rfl)
+    by_cases hp : binParen o p q = true
+    · obtain ⟨a1, a2⟩ := iha.1 true (some o) none h.1 (Or.inl rfl)
+      simp [annotS, hp, safeSeqS_append, flowSeqS_append, SafeSeqS, flowSeqS, SeqEl.safe, SeqEl.flow, sW, sR, AFrag.prev, AFrag.flow, aW, aR, bodySafe, endAfter, nxt, wf_lp, wf_rp, wf_lb, wf_rb, wf_comma, wf_colon, wf_dot, wf_bslash, wf_bar, wf_allIn, wf_op, wf_not, wf_query, a1, b1]
+      exact ⟨pre_adj hpre _ (fun _ => lpm), post_some .rp rfl (fun _ n hn => by cases hn)⟩
+    · obtain ⟨a1, a2⟩ := iha.1 true (some o) slt h.1 (pre_true hpre)
+      simp [annotS, hp, safeSeqS_append, flowSeqS_append, SafeSeqS, flowSeqS, SeqEl.safe, SeqEl.flow, sW, sR, AFrag.prev, AFrag.flow, aW, aR, bodySafe, endAfter, nxt, wf_lp, wf_rp, wf_lb, wf_rb, wf_comma, wf_colon, wf_dot, wf_bslash, wf_bar, wf_allIn, wf_op, wf_not, wf_query, a1, b1]
+      exact ⟨b2.1, fun hi => b2.2 (by simpa [intEnd, hp] using hi)⟩
+  | neg a iha =>
+    refine ⟨?_, fun _ _ h => absurd h (by simp [lexArgsS]), fun _ _ h => absurd h (by simp [lexItemsS])⟩
+    intro p q slt h hpre
+    simp only [lexWFS] at h
+    obtain ⟨a1, a2⟩ := iha.1 true none (some (.op .minus)) h (Or.inr (Or.inr ⟨rfl, rfl⟩))
+    cases p with
+    | true =>
+      simp [annotS, safeSeqS_append, flowSeqS_append, SafeSeqS, flowSeqS, SeqEl.safe, SeqEl.flow, sW, sR, AFrag.prev, AFrag.flow, aW, aR, bodySafe, endAfter, nxt, wf_lp, wf_rp, wf_lb, wf_rb, wf_comma, wf_colon, wf_dot, wf_bslash, wf_bar, wf_allIn, wf_op, wf_not, wf_query, a1]
+      exact ⟨pre_adj hpre _ (fun _ => lpm), post_some .rp rfl (fun _ n hn => by cases hn)⟩
+    | false =>
+      simp [annotS, safeSeqS_append, flowSeqS_append, SafeSeqS, flowSeqS, SeqEl.safe, SeqEl.flow, sW, sR, AFrag.prev, AFrag.flow, aW, aR, bodySafe, endAfter, nxt, wf_lp, wf_rp, wf_lb, wf_rb, wf_comma, wf_colon, wf_dot, wf_bslash, wf_bar, wf_allIn, wf_op, wf_not, wf_query, a1]
+      refine ⟨pre_adj hpre _ (fun hh => by cases hh), a2.1, fun hi => a2.2 (by simpa [intEnd] using hi)⟩
+  | not a iha =>
+    refine ⟨?_, fun _ _ h => absurd h (by simp [lexArgsS]), fun _ _ h => absurd h (by simp [lexItemsS])⟩
+    intro p q slt h hpre
+    simp only [lexWFS] at h
+    obtain ⟨a1, a2⟩ := iha.1 true none none h (Or.inl rfl)
+    cases p with
+    | true =>
+      simp [annotS, safeSeqS_append, flowSeqS_append, SafeSeqS, flowSeqS, SeqEl.safe, SeqEl.flow, sW, sR, AFrag.prev, AFrag.flow, aW, aR, bodySafe, endAfter, nxt, wf_lp, wf_rp, wf_lb, wf_rb, wf_comma, wf_colon, wf_dot, wf_bslash, wf_bar, wf_allIn, wf_op, wf_not, wf_query, a1]
+      exact ⟨pre_adj hpre _ (fun _ => lpm), post_some .rp rfl (fun _ n hn => by cases hn)⟩
+    | false =>
+      simp [annotS, safeSeqS_append, flowSeqS_append, SafeSeqS, flowSeqS, SeqEl.safe, SeqEl.flow, sW, sR, AFrag.prev, AFrag.flow, aW, aR, bodySafe, endAfter, nxt, wf_lp, wf_rp, wf_lb, wf_rb, wf_comma, wf_colon, wf_dot, wf_bslash, wf_bar, wf_allIn, wf_op, wf_not, wf_query, a1]
+      refine ⟨pre_adj hpre _ (fun hh => by cases hh), a2.1, fun hi => a2.2 (by simpa [intEnd] using hi)⟩
+  | dot a f iha =>
+    refine ⟨?_, fun _ _ h => absurd h (by simp [lexArgsS]), fun _ _ h => absurd h (by simp [lexItemsS])⟩
+    intro p q slt h hpre
+    simp only [lexWFS] at h
+    obtain ⟨a1, a2⟩ := iha.1 true none slt h.1 (pre_true hpre)
+    have hni := a2.2 (intEnd_operand a h.2.2)
+    simp [annotS, safeSeqS_append, flowSeqS_append, SafeSeqS, flowSeqS, SeqEl.safe, SeqEl.flow, sW, sR, AFrag.prev, AFrag.flow, aW, aR, bodySafe, endAfter, nxt, wf_lp, wf_rp, wf_lb, wf_rb, wf_comma, wf_colon, wf_dot, wf_bslash, wf_bar, wf_allIn, wf_op, wf_not, wf_query, a1]
+    exact ⟨⟨fun t0 h0 => (adj_end t0 (a2.1 t0 h0)).2.2.2.2 (fun n hn => hni n (by rw [h0, hn])), h.2.1, adj_dot _⟩,
+      post_some (.id f) rfl (fun _ n hn => by cases hn)⟩
+  | group a f iha =>
+    refine ⟨?_, fun _ _ h => absurd h (by simp [lexArgsS]), fun _ _ h => absurd h (by simp [lexItemsS])⟩
+    intro p q slt h hpre
+    simp only [lexWFS] at h
+    obtain ⟨a1, a2⟩ := iha.1 true none slt h.1 (pre_true hpre)
+    simp [annotS, safeSeqS_append, flowSeqS_append, SafeSeqS, flowSeqS, SeqEl.safe, SeqEl.flow, sW, sR, AFrag.prev, AFrag.flow, aW, aR, bodySafe, endAfter, nxt, wf_lp, wf_rp, wf_lb, wf_rb, wf_comma, wf_colon, wf_dot, wf_bslash, wf_bar, wf_allIn, wf_op, wf_not, wf_query, a1]
+    exact ⟨⟨(endO_adj a2.1).2.2.2, h.2, adj_bslash _⟩, post_some (.id f) rfl (fun _ n hn => by cases hn)⟩
+  | index a i iha ihi =>
+    refine ⟨?_, fun _ _ h => absurd h (by simp [lexArgsS]), fun _ _ h => absurd h (by simp [lexItemsS])⟩
+    intro p q slt h hpre
+    simp only [lexWFS] at h
+    obtain ⟨a1, a2⟩ := iha.1 true none slt h.1 (pre_true hpre)
+    obtain ⟨i1, i2⟩ := ihi.1 (indexParen i) none (some .lb) h.2 (Or.inr (Or.inl rfl))
+    simp [annotS, safeSeqS_append, flowSeqS_append, SafeSeqS, flowSeqS, SeqEl.safe, SeqEl.flow, sW, sR, AFrag.prev, AFrag.flow, aW, aR, bodySafe, endAfter, nxt, wf_lp, wf_rp, wf_lb, wf_rb, wf_comma, wf_colon, wf_dot, wf_bslash, wf_bar, wf_allIn, wf_op, wf_not, wf_query, a1, i1]
+    exact ⟨⟨(endO_adj a2.1).2.2.1, (endO_adj i2.1).2.1⟩, post_some .rb rfl (fun _ n hn => by cases hn)⟩
+  | range a i j iha ihi ihj =>
+    refine ⟨?_, fun _ _ h => absurd h (by simp [lexArgsS]), fun _ _ h => absurd h (by simp [lexItemsS])⟩
+    intro p q slt h hpre
+    simp only [lexWFS] at h
+    obtain ⟨a1, a2⟩ := iha.1 true none slt h.1 (pre_true hpre)
+    obtain ⟨i1, i2⟩ := ihi.1 (indexParen i) none (some .lb) h.2.1 (Or.inr (Or.inl rfl))
+    obtain ⟨j1, j2⟩ := ihj.1 (indexParen j) none none h.2.2 (Or.inl rfl)
+    simp [annotS, safeSeqS_append, flowSeqS_append, SafeSeqS, flowSeqS, SeqEl.safe, SeqEl.flow, sW, sR, AFrag.prev, AFrag.flow, aW, aR, bodySafe, endAfter, nxt, wf_lp, wf_rp, wf_lb, wf_rb, wf_comma, wf_colon, wf_dot, wf_bslash, wf_bar, wf_allIn, wf_op, wf_not, wf_query, a1, i1, j1]
+    exact ⟨⟨(endO_adj a2.1).2.2.1, (endO_adj j2.1).2.1⟩, post_some .rb rfl (fun _ n hn => by cases hn)⟩
+  | query v s c ihs ihc =>
+    refine ⟨?_, fun _ _ h => absurd h (by simp [lexArgsS]), fun _ _ h => absurd h (by simp [lexItemsS])⟩
+    intro p q slt h hpre
+    simp only [lexWFS] at h
+    obtain ⟨s1, s2⟩ := ihs.1 true none none h.2.1 (Or.inl rfl)
+    obtain ⟨c1, c2⟩ := ihc.1 true none none h.2.2 (Or.inl rfl)
+    simp [annotS, safeSeqS_append, flowSeqS_append, SafeSeqS, flowSeqS, SeqEl.safe, SeqEl.flow, sW, sR, AFrag.prev, AFrag.flow, aW, aR, bodySafe, endAfter, nxt, wf_lp, wf_rp, wf_lb, wf_rb, wf_comma, wf_colon, wf_dot, wf_bslash, wf_bar, wf_allIn, wf_op, wf_not, wf_query, s1, c1]
+    exact ⟨⟨pre_adj hpre _ (fun _ => no_minus_of _ (by decide)), h.1⟩, post_some .rp rfl (fun _ n hn => by cases hn)⟩
+  | call f args ih =>
+    refine ⟨?_, fun _ _ h => absurd h (by simp [lexArgsS]), fun _ _ h => absurd h (by simp [lexItemsS])⟩
+    intro p q slt h hpre
+    simp only [lexWFS] at h
+    have s1 := ih.2.1 true none h.2 (fun _ => rfl) (fun hh => by cases hh)
+    simp [annotS, safeSeqS_append, flowSeqS_append, SafeSeqS, flowSeqS, SeqEl.safe, SeqEl.flow, sW, sR, AFrag.prev, AFrag.flow, aW, aR, bodySafe, endAfter, nxt, wf_lp, wf_rp, wf_lb, wf_rb, wf_comma, wf_colon, wf_dot, wf_bslash, wf_bar, wf_allIn, wf_op, wf_not, wf_query, s1]
+    exact ⟨⟨h.1, pre_adj hpre _ (fun _ => id_no_minus f h.1), adj_id_lp f⟩, post_some .rp rfl (fun _ n hn => by cases hn)⟩
+  | aggr items ih =>
+    refine ⟨?_, fun _ _ h => absurd h (by simp [lexArgsS]), fun _ _ h => absurd h (by simp [lexItemsS])⟩
+    intro p q slt h hpre
+    simp only [lexWFS] at h
+    obtain ⟨s1, s2⟩ := ih.2.2 true (some .lb) h (fun _ => rfl) (fun hh => by cases hh)
+    simp [annotS, safeSeqS_append, flowSeqS_append, SafeSeqS, flowSeqS, SeqEl.safe, SeqEl.flow, sW, sR, AFrag.prev, AFrag.flow, aW, aR, bodySafe, endAfter, nxt, wf_lp, wf_rp, wf_lb, wf_rb, wf_comma, wf_colon, wf_dot, wf_bslash, wf_bar, wf_allIn, wf_op, wf_not, wf_query, s1]
+    exact ⟨⟨pre_adj hpre _ (fun _ => lbm), (endO_adj s2).2.1⟩, post_some .rb rfl (fun _ n hn => by cases hn)⟩
+  | nil =>
+    refine ⟨fun _ _ _ h => absurd h (by simp [lexWFS]), ?_, ?_⟩
+    · intro fst slt _ _ _; simp [argAS, SafeSeqS]
+    · intro fst slt _ h1 h2
+      simp only [itemAS, SafeSeqS, flowSeqS, true_and]
+      cases fst with
+      | true => rw [h1 rfl]; intro t ht; cases ht; rfl
+      | false => exact h2 rfl
+  | cons e t ihe iht =>
+    refine ⟨fun _ _ _ h => absurd h (by simp [lexWFS]), ?_, ?_⟩
+    · intro fst slt h h1 h2
+      simp only [lexArgsS] at h
+      cases fst with
+      | true =>
+        obtain ⟨e1, e2⟩ := ihe.1 false none slt h.1 (Or.inl (h1 rfl))
+        have t1 := iht.2.1 false _ h.2 (fun hh => by cases hh) (fun _ => e2.1)
+        simp [argAS, safeSeqS_append, flowSeqS_append, SafeSeqS, flowSeqS, SeqEl.safe, SeqEl.flow, sW, sR, AFrag.prev, AFrag.flow, aW, aR, bodySafe, endAfter, nxt, wf_lp, wf_rp, wf_lb, wf_rb, wf_comma, wf_colon, wf_dot, wf_bslash, wf_bar, wf_allIn, wf_op, wf_not, wf_query, e1, t1]
+      | false =>
+        obtain ⟨e1, e2⟩ := ihe.1 false none none h.1 (Or.inl rfl)
+        have t1 := iht.2.1 false _ h.2 (fun hh => by cases hh) (fun _ => e2.1)
+        simp [argAS, safeSeqS_append, flowSeqS_append, SafeSeqS, flowSeqS, SeqEl.safe, SeqEl.flow, sW, sR, AFrag.prev, AFrag.flow, aW, aR, bodySafe, endAfter, nxt, wf_lp, wf_rp, wf_lb, wf_rb, wf_comma, wf_colon, wf_dot, wf_bslash, wf_bar, wf_allIn, wf_op, wf_not, wf_query, e1, t1]
+        exact (endO_adj (h2 rfl)).1
+    · intro fst slt h h1 h2
+      simp only [lexItemsS] at h
+      cases fst with
+      | true =>
+        obtain ⟨e1, e2⟩ := ihe.1 false none slt h.1 (Or.inr (Or.inl (h1 rfl)))
+        obtain ⟨t1, t2⟩ := iht.2.2 false _ h.2 (fun hh => by cases hh) (fun _ => e2.1)
+        simp [itemAS, safeSeqS_append, flowSeqS_append, SafeSeqS, flowSeqS, SeqEl.safe, SeqEl.flow, sW, sR, AFrag.prev, AFrag.flow, aW, aR, bodySafe, endAfter, nxt, wf_lp, wf_rp, wf_lb, wf_rb, wf_comma, wf_colon, wf_dot, wf_bslash, wf_bar, wf_allIn, wf_op, wf_not, wf_query, e1, t1]
+        exact t2
+      | false =>
+        obtain ⟨e1, e2⟩ := ihe.1 false none none h.1 (Or.inl rfl)
+        obtain ⟨t1, t2⟩ := iht.2.2 false _ h.2 (fun hh => by cases hh) (fun _ => e2.1)
+        simp [itemAS, safeSeqS_append, flowSeqS_append, SafeSeqS, flowSeqS, SeqEl.safe, SeqEl.flow, sW, sR, AFrag.prev, AFrag.flow, aW, aR, bodySafe, endAfter, nxt, wf_lp, wf_rp, wf_lb, wf_rb, wf_comma, wf_colon, wf_dot, wf_bslash, wf_bar, wf_allIn, wf_op, wf_not, wf_query, e1, t1]
+        exact ⟨(endO_adj (h2 rfl)).1, t2⟩
+  | rep e c t ihe ihc iht =>
+    refine ⟨fun _ _ _ h => absurd h (by simp [lexWFS]), fun _ _ h => absurd h (by simp [lexArgsS]), ?_⟩
+    intro fst slt h h1 h2
+    simp only [lexItemsS] at h
+    obtain ⟨c1, c2⟩ := ihc.1 false none none h.2.1 (Or.inl rfl)
+    obtain ⟨t1, t2⟩ := iht.2.2 false _ h.2.2 (fun hh => by cases hh) (fun _ => c2.1)
+    cases fst with
+    | true =>
+      obtain ⟨e1, e2⟩ := ihe.1 false none slt h.1 (Or.inr (Or.inl (h1 rfl)))
+      simp [itemAS, hrep, safeSeqS_append, flowSeqS_append, SafeSeqS, flowSeqS, SeqEl.safe, SeqEl.flow, sW, sR, AFrag.prev, AFrag.flow, aW, aR, bodySafe, endAfter, nxt, wf_lp, wf_rp, wf_lb, wf_rb, wf_comma, wf_colon, wf_dot, wf_bslash, wf_bar, wf_allIn, wf_op, wf_not, wf_query, e1, c1, t1]
+      exact t2
+    | false =>
+      obtain ⟨e1, e2⟩ := ihe.1 false none none h.1 (Or.inl rfl)
+      simp [itemAS, hrep, safeSeqS_append, flowSeqS_append, SafeSeqS, flowSeqS, SeqEl.safe, SeqEl.flow, sW, sR, AFrag.prev, AFrag.flow, aW, aR, bodySafe, endAfter, nxt, wf_lp, wf_rp, wf_lb, wf_rb, wf_comma, wf_colon, wf_dot, wf_bslash, wf_bar, wf_allIn, wf_op, wf_not, wf_query, e1, c1, t1]
+      exact ⟨(endO_adj (h2 rfl)).1, t2⟩
+
+
+theorem litFrag_respellS (l : Lit) (h : LitLexS (respellLit l)) (b : Bool) : litFrag b (respellLit l) = litFrag b l := by
+  cases l with
+  | real g => simp only [respellLit, LitLexS, LitLex] at h; simp [respellLit, litFrag, h.2]
+  | _ => rfl
+
+/-- the fragments of an expression depend on its real literals only through their printed spelling -/
+theorem frags_respellS (e : Expr) :
+    (∀ p q, lexWFS (respell e) → exprFrags Shared.clean (respell e) p q = exprFrags Shared.clean e p q)
+    ∧ (∀ fst, lexArgsS (respell e) → argFrags Shared.clean (respell e) fst = argFrags Shared.clean e fst)
+    ∧ (∀ fst, lexItemsS (respell e) → itemFrags Shared.clean (respell e) fst = itemFrags Shared.clean e fst) := by
+  have hrep : ExpPrec.repeatOverwritesCountType = false := rfl
+  induction e with
+  | lit l =>
+    refine ⟨fun p q h => ?_, fun _ _ => rfl, fun _ _ => rfl⟩
+    simp only [respell, lexWFS] at h
+    simp [respell, exprFrags, litFrag_respellS l h]
+  | ident s => exact ⟨fun _ _ _ => rfl, fun _ _ => rfl, fun _ _ => rfl⟩
+  | bin o a b iha ihb =>
+    refine ⟨fun p q h => ?_, fun _ _ => rfl, fun _ _ => rfl⟩
+    simp only [respell, lexWFS] at h
+    simp [respell, exprFrags, iha.1 _ _ h.1, ihb.1 _ _ h.2]
+  | neg a iha =>
+    refine ⟨fun p q h => ?_, fun _ _ => rfl, fun _ _ => rfl⟩
+    simp only [respell, lexWFS] at h
+    simp [respell, exprFrags, iha.1 _ _ h]
+  | not a iha =>
+    refine ⟨fun p q h => ?_, fun _ _ => rfl, fun _ _ => rfl⟩
+    simp only [respell, lexWFS] at h
+    simp [respell, exprFrags, iha.1 _ _ h]
+  | dot a f iha =>
+    refine ⟨fun p q h => ?_, fun _ _ => rfl, fun _ _ => rfl⟩
+    simp only [respell, lexWFS] at h
+    simp [respell, exprFrags, iha.1 _ _ h.1]
+  | group a f iha =>
+    refine ⟨fun p q h => ?_, fun _ _ => rfl, fun _ _ => rfl⟩
+    simp only [respell, lexWFS] at h
+    simp [respell, exprFrags, iha.1 _ _ h.1]
+  | index a i iha ihi =>
+    refine ⟨fun p q h => ?_, fun _ _ => rfl, fun _ _ => rfl⟩
+    simp only [respell, lexWFS] at h
+    have := ihi.1 (indexParen i) none h.2
+    simp [respell, exprFrags, iha.1 _ _ h.1, indexParen_respell, this]
+  | range a i j iha ihi ihj =>
+    refine ⟨fun p q h => ?_, fun _ _ => rfl, fun _ _ => rfl⟩
+    simp only [respell, lexWFS] at h
+    have h1 := ihi.1 (indexParen i) none h.2.1
+    have h2 := ihj.1 (indexParen j) none h.2.2
+    simp [respell, exprFrags, iha.1 _ _ h.1, indexParen_respell, h1, h2]
+  | query v s c ihs ihc =>
+    refine ⟨fun p q h => ?_, fun _ _ => rfl, fun _ _ => rfl⟩
+    simp only [respell, lexWFS] at h
+    simp [respell, exprFrags, ihs.1 _ _ h.2.1, ihc.1 _ _ h.2.2]
+  | call f as ih =>
+    refine ⟨fun p q h => ?_, fun _ _ => rfl, fun _ _ => rfl⟩
+    simp only [respell, lexWFS] at h
+    simp [respell, exprFrags, ih.2.1 _ h.2]
+  | aggr is ih =>
+    refine ⟨fun p q h => ?_, fun _ _ => rfl, fun _ _ => rfl⟩
+    simp only [respell, lexWFS] at h
+    simp [respell, exprFrags, ih.2.2 _ h]
+  | nil => exact ⟨fun _ _ _ => rfl, fun _ _ => rfl, fun _ _ => rfl⟩
+  | cons e t ihe iht =>
+    refine ⟨fun _ _ _ => rfl, fun fst h => ?_, fun fst h => ?_⟩
+    · simp only [respell, lexArgsS] at h
+      simp [respell, argFrags, ihe.1 _ _ h.1, iht.2.1 _ h.2]
+    · simp only [respell, lexItemsS] at h
+      simp [respell, itemFrags, ihe.1 _ _ h.1, iht.2.2 _ h.2, sharedRep_clean]
+  | rep e c t ihe ihc iht =>
+    refine ⟨fun _ _ _ => rfl, fun _ _ => rfl, fun fst h => ?_⟩
+    simp only [respell, lexItemsS] at h
+    simp [respell, itemFrags, ihe.1 _ _ h.1, ihc.1 _ _ h.2.1, iht.2.2 _ h.2.2, sharedRep_clean, hrep]
+
+
 end StepModel.Express
